@@ -998,4 +998,147 @@ Section Glue.
     - apply keep_sweep; [intros; apply keep_fin_top; assumption | apply (rel_ns g); exact R].
   Qed.
 
+  Hypothesis dok : RP.dtors_ok d.
+
+  Lemma known_fresh g s p : GL g s -> ever p (RM.evs g) = false -> info s (idn p) = None.
+  Proof.
+    intros L He. destruct (info s (idn p)) eqn:Hi; [|reflexivity]. exfalso.
+    destruct (gl_known g s L (idn p)) as [p' [Hp Hev]]; [congruence|].
+    apply idn_inj in Hp. subst p'. congruence.
+  Qed.
+
+  Lemma collect_out g ws g' o : Ccollect g ws = (g', o) -> o <> RM.OFuel -> o <> RM.OCrash -> o = RM.OOk.
+  Proof.
+    unfold RM.collect. destruct (RM.gc_mark hashf g ws) as [[gm|]|]; [|intros H; inversion H; subst; congruence..].
+    destruct (Csweep gm); intros H; inversion H; subst; congruence.
+  Qed.
+
+  (* one operation: both machines move, the relation is kept *)
+  Theorem glue_step g s o :
+    GL g s -> RP.admissible g o -> gadm g o -> GL (fst (Cstep g o)) (cstep g s o).
+  Proof.
+    intros L Ha Hga.
+    pose proof (gl_inv g s L) as Hi. pose proof (gl_quiet g s L) as Hq. pose proof (gl_rel g s L) as R.
+    pose proof (gl_ginv g s L) as G. pose proof (GL_Tab g s L) as T.
+    destruct (RP.registry_step_thm hashf d true true g o dok Hi Hq Ha) as [g' [out [Hs [Hnf [Hnc [Hi' [Hq' _]]]]]]].
+    rewrite Hs. cbn [fst].
+    assert (Hpe : pend s = []) by (rewrite (rel_pend g s R), Hq; reflexivity).
+    assert (Hns : NS s) by (apply (rel_ns g); exact R).
+    assert (Known_keep : forall s', Keep s s' -> Mono g g' ->
+              forall x, info s' x <> None -> exists p, x = idn p /\ ever p (RM.evs g') = true).
+    { intros s' [K1 _] Mo x Hx. rewrite K1 in Hx. destruct (gl_known g s L x Hx) as [p [Hp He]]. exists p. split; [exact Hp | apply Mo; exact He]. }
+    unfold RP.Gstep in Hs.
+    destruct o as [p r ws|p|p|ws| | | |p]; cbn [RM.gc_step cstep] in *.
+    - (* OAlloc *)
+      unfold RM.gc_set in Hs.
+      destruct (RM.running g) eqn:Hrun; simpl negb in *; cbv iota in *.
+      2:{ inversion Hs; subst. exact L. }
+      specialize (Ha Hrun). specialize (Hga Hrun).
+      destruct (RP.gc_register_ok hashf gc_swap gc_primes gc_load_num gc_load_den RP.gc_swap_le RP.gc_swap_ge RP.gc_ideal_gt
+                  g p r (RM.EvAlloc p r) Hi Ha) as [g3 [Hreg [Hi3 [Hp3 [Hr3 [Hn3 Hh3]]]]]].
+      { rewrite Hq. intros []. }
+      { left. reflexivity. }
+      destruct (register_frame g p r _ g3 RM.OOk Hreg eq_refl) as [Hm3 He3].
+      rewrite Hreg in Hs |- *. cbn [fst].
+      pose proof (known_fresh g s p L Hga) as Hinone.
+      set (s1 := add_obj (idn p) (if r then KRoot else KManaged) false s) in *.
+      pose proof (add_obj_ginv [] s (idn p) (if r then KRoot else KManaged) false G Hinone) as G1. fold s1 in G1.
+      assert (Hnr : ~ In (idn p) (regids s1)) by (intros Hin; apply (g_info _ _ G (idn p) (or_introl Hin)); exact Hinone).
+      assert (Hnp : ~ In (idn p) (pids s1)) by (unfold pids; change (pend s1) with (pend s); rewrite Hpe; intros []).
+      assert (Hf0 : fin_count s1 (idn p) = 0) by (apply (g_alloc _ _ G); exact Hinone).
+      assert (Hi1 : info s1 (idn p) <> None) by (unfold s1; simpl; rewrite Nat.eqb_refl; discriminate).
+      pose proof (register_ginv [] s1 (idn p) r G1 Hnr Hnp Hf0 Hi1) as G2.
+      set (s2 := set_reg ((idn p, r) :: reg s1) s1) in *.
+      assert (R3 : Rel g3 s2).
+      { constructor; try apply R.
+        - intros x r'. unfold s2. simpl reg. rewrite in_abs_reg. split.
+          + intros [Heq|Hin].
+            * inversion Heq; subst. exists (RM.mkE p r' false). split; [apply Hh3; right; reflexivity | auto].
+            * apply (rel_reg g s R) in Hin. apply in_abs_reg in Hin. destruct Hin as [e [He [H1 H2]]].
+              exists e. split; [apply Hh3; left; exact He | auto].
+          + intros [e [He [H1 H2]]]. apply Hh3 in He. destruct He as [He | ->].
+            * right. apply (rel_reg g s R). apply in_abs_reg. exists e. auto.
+            * left. simpl in H1, H2. congruence.
+        - change (pend s2) with (pend s). rewrite Hp3. apply R.
+        - change (running s2) with (running s). rewrite Hr3. apply R.
+        - change (mitems s2) with (mitems s). rewrite Hm3. apply R.
+        - intros q. change (fin_count s2 (idn q)) with (fin_count s (idn q)). rewrite He3. simpl. apply R. }
+      assert (K2 : Keep s1 s2) by (repeat split).
+      assert (Known2 : forall gx, Mono g3 gx -> forall s', Keep s2 s' ->
+                forall x, info s' x <> None -> exists q, x = idn q /\ ever q (RM.evs gx) = true).
+      { intros gx Mo s' [K1 _] x Hx. rewrite K1 in Hx. change (info s2 x) with (info s1 x) in Hx. unfold s1 in Hx. simpl in Hx.
+        revert Hx. destruct (Nat.eqb_spec x (idn p)) as [Hxp|Hne]; intros Hx.
+        - exists p. split; [exact Hxp|]. apply Mo. rewrite He3. simpl. rewrite N.eqb_refl. reflexivity.
+        - destruct (gl_known g s L x Hx) as [q [Hxq Hev]]. exists q. split; [exact Hxq|]. apply Mo. rewrite He3. apply ever_mono. exact Hev. }
+      assert (Hthr : (mitems s2 <? nitems s2) = (RM.mitems g3 <? RM.nitems g3)).
+      { change (mitems s2) with (mitems s). rewrite (rel_mit g s R), Hm3. unfold nitems, s2. simpl length.
+        change (reg s1) with (reg s). rewrite (rel_len g s T R (g_reg_nodup _ _ G)), Hn3. reflexivity. }
+      rewrite Hthr. destruct (RM.mitems g3 <? RM.nitems g3).
+      + pose proof (collect_out g3 ws g' out Hs Hnf Hnc) as Hout.
+        destruct (glue_collect g3 s2 ws g' out Hi3 ltac:(unfold RP.Quiet; rewrite Hp3; exact Hq) R3 G2 Hs Hout) as (R' & G' & K' & Mo').
+        constructor; auto. apply (Known2 g' Mo' _ K').
+      + inversion Hs; subst g' out. constructor; auto. apply (Known2 g3 (Mono_refl g3) s2 (Keep_refl s2)).
+    - (* ORem *)
+      destruct (Crem (RM.depth g) g p) as [g1|] eqn:Hrem; [|inversion Hs; subst; congruence].
+      inversion Hs; subst g' out.
+      destruct (glue_rem (RM.depth g) [] g s p g1 T R G Hrem) as (_ & R' & Mo').
+      destruct (LifecycleProofs.gc_rem_ok finT (S (measure s)) (fin_top_ok _) [] s (idn p) G ltac:(lia)) as (G' & _).
+      constructor; auto. apply Known_keep; [|exact Mo'].
+      apply keep_gc_rem; [intros; apply keep_fin_top; assumption | exact Hns].
+    - (* OFinRaw *)
+      unfold RM.finalise in Hs.
+      destruct (Cfinw (Crem (RM.depth g)) g p) as [g1|] eqn:Hfin; [|inversion Hs; subst; congruence].
+      inversion Hs; subst g' out.
+      pose proof (known_fresh g s p L Hga) as Hinone.
+      set (s1 := add_obj (idn p) KRaw false s) in *.
+      pose proof (add_obj_ginv [] s (idn p) KRaw false G Hinone) as G1. fold s1 in G1.
+      assert (R1 : Rel g s1) by (constructor; apply R).
+      assert (Hnr : ~ In (idn p) (regids s1)) by (intros Hin; apply (g_info _ _ G (idn p) (or_introl Hin)); exact Hinone).
+      assert (Hnp : ~ In (idn p) (pids s1)) by (unfold pids; change (pend s1) with (pend s); rewrite Hpe; intros []).
+      assert (Hf0 : fin_count s1 (idn p) = 0) by (apply (g_alloc _ _ G); exact Hinone).
+      assert (Hi1 : info s1 (idn p) <> None) by (unfold s1; simpl; rewrite Nat.eqb_refl; discriminate).
+      destruct (glue_finalise (RM.depth g) [] g s1 p g1 T R1 G1 Hnr Hnp Hf0 Hi1 Hfin) as (_ & R' & Mo').
+      destruct (fin_top_ok (S (measure s1)) [] s1 (idn p) G1 Hnr Hnp Hf0 Hi1 ltac:(lia)) as (G' & _).
+      constructor; auto.
+      intros x Hx. destruct (keep_fin_top s1 (idn p) (rel_ns g s1 R1)) as [K1 _]. rewrite K1 in Hx. unfold s1 in Hx. simpl in Hx.
+      revert Hx. destruct (Nat.eqb_spec x (idn p)) as [Hxp|Hne]; intros Hx.
+      + exists p. split; [exact Hxp|].
+        (* EvFin p has been logged *)
+        rewrite cfinw_eq in Hfin.
+        assert (Hl : ever p (RM.evs (RM.log g (RM.EvFin p))) = true) by (simpl; rewrite N.eqb_refl; reflexivity).
+        destruct (RP.d_owns d p) as [|t ts].
+        * inversion Hfin; subst. exact Hl.
+        * destruct (RM.depth g) as [|f]; [discriminate|].
+          assert (Tl : Tab (RM.log g (RM.EvFin p))) by (apply (tab_fields g); auto).
+          destruct (glue_rem (S f) (idn p :: []) (RM.log g (RM.EvFin p)) (add_log (LFin (idn p)) s1) t g1 Tl (rel_add_fin g s1 p R1)) as (_ & _ & Mo2).
+          -- destruct (add_fin_ok [] s1 (idn p) G1 Hnr Hnp Hf0 Hi1) as (Ga & _). exact Ga.
+          -- exact Hfin.
+          -- apply Mo2. exact Hl.
+      + destruct (gl_known g s L x Hx) as [q [Hq'' Hev]]. exists q. split; [exact Hq'' | apply Mo'; exact Hev].
+    - (* OCollect *)
+      pose proof (collect_out g ws g' out Hs Hnf Hnc) as Hout.
+      destruct (glue_collect g s ws g' out Hi Hq R G Hs Hout) as (R' & G' & K' & Mo').
+      constructor; auto. apply Known_keep; assumption.
+    - (* OSweep *)
+      destruct (Csweep g) as [g1|] eqn:Hsw; [|inversion Hs; subst; congruence].
+      inversion Hs; subst g' out.
+      assert (TM : TabM g) by (constructor; apply T).
+      destruct (glue_sweep [] g s g1 TM Hq R G Hsw) as (_ & R' & _ & Mo').
+      destruct (LifecycleProofs.sweep_ok finT (S (measure s)) (fin_top_ok _) (c_order g) (c_marks g) [] s G Hpe ltac:(lia)) as (G' & _).
+      constructor; auto. apply Known_keep; [|exact Mo'].
+      apply keep_sweep; [intros; apply keep_fin_top; assumption | exact Hns].
+    - (* OStop *)
+      inversion Hs; subst g' out. constructor; auto.
+      + constructor; try apply R. reflexivity.
+      + constructor; apply G.
+      + apply (gl_known g s L).
+    - (* OStart *)
+      inversion Hs; subst g' out. constructor; auto.
+      + constructor; try apply R. reflexivity.
+      + constructor; apply G.
+      + apply (gl_known g s L).
+    - (* OMem *)
+      destruct (RM.gc_mem hashf g p); inversion Hs; subst; exact L.
+  Qed.
+
 End Glue.
